@@ -10,6 +10,7 @@ import (
 	"io/ioutil"
 	"log"
 	"os"
+	"runtime/pprof"
 	"sort"
 	"strconv"
 
@@ -22,6 +23,7 @@ func main() {
 	tier := flag.String("tier", "", "quick | thorough")
 	replay := flag.String("replay", "", "replay file written by an earlier run")
 	list := flag.Bool("list", false, "list the properties with a check")
+	cpuprof := flag.String("cpuprofile", "", "write a CPU profile (development)")
 	flag.Parse()
 
 	// the library logs from its MAC command decoder
@@ -83,6 +85,13 @@ func main() {
 		}
 		r.Replay, r.ReplayPart, r.ReplayIndex, r.ReplayPath = true, rec.Part, rec.Index, rec.Path
 	}
+	if *cpuprof != "" {
+		f, _ := os.Create(*cpuprof)
+		pprof.StartCPUProfile(f)
+	}
 	ck.Run(r)
+	if *cpuprof != "" {
+		pprof.StopCPUProfile()
+	}
 	os.Exit(r.Finish())
 }
